@@ -412,7 +412,7 @@ def special_plans():
             out.append(('pad_put_%d_%d_k%d_o%d' % (pw, aw, k, off), _plan(wires, ['a'], blocks, bidir=('pad',))))
     # multi-bit wires on carry / control ports (the constructors accept them), results wider than / equal to / narrower
     # than the operands; the carry is poked (all-ones, raw out-of-range) or driven by a free running counter (long runs)
-    for kind in ('AddCarryInWide', 'AddWideCI', 'SubBorrowInWide'):
+    for kind in ('AddCarryInWide', 'AddWideCI'):    # SubBorrowIn is unusable on the pinned tree (propagate reads self.ci, the constructor sets self.bi)
         for aw, bw, rw, cw in [(4, 4, 5, 3), (4, 4, 4, 4), (8, 3, 9, 8), (3, 5, 6, 7), (8, 8, 16, 12), (1, 1, 2, 2), (6, 6, 3, 6), (16, 16, 17, 16)]:
             if rw < aw:
                 continue        # AddCarryIn / SubBorrowIn (also inside Add) assert rw >= aw
